@@ -6,13 +6,6 @@
 #include "imbv.h"
 #include <errno.h>
 
-struct pert {
-        char name[64];
-        int nacc;
-        int acc[4]; /* acceptable error codes; -1 = any non-zero */
-        int expect_valid; /* boundary value that must be ACCEPTED */
-};
-
 #define ACC1(a) do { p->nacc = 1; p->acc[0] = (a); } while (0)
 #define ACC2(a, b) do { p->nacc = 2; p->acc[0] = (a); p->acc[1] = (b); } while (0)
 #define ENTRY(cond, nm) if ((cond) && n++ == idx && (snprintf(p->name, sizeof p->name, "%s", nm), 1))
@@ -89,8 +82,8 @@ cipher_len_limit(const struct item *it)
 }
 
 /* apply catalogue entry idx to job; 0 = end of catalogue, 1 = applied */
-static int
-perturb(const struct item *it, int idx, IMB_JOB *job, struct pert *p, const void **des3_tmp)
+int
+imbv_perturb(const struct item *it, int idx, IMB_JOB *job, struct pert *p, const void **des3_tmp)
 {
         int n = 0;
         const IMB_CIPHER_MODE c = it->cipher;
@@ -358,7 +351,7 @@ one_baseline(struct mmgr *mm, int cfg, const struct suite *cs, const struct suit
                         j = mm_get_next_job(mm);
                 *j = base;
                 if (idx >= 0) {
-                        if (!perturb(IT, idx, j, &p, des3_tmp))
+                        if (!imbv_perturb(IT, idx, j, &p, des3_tmp))
                                 break;
                 } else
                         p.expect_valid = 1; /* idx -1: the baseline itself */
